@@ -22,6 +22,9 @@ CHECKS = {
                "A clean run means 'no report on these executions', not memory safety.", "DESIGN.md §6 C05", "allocator audit + self-checking payloads + Miri + ASan over generated histories"),
     "C06": seq("Exploration: round trips through serde_json (row-wise) and serde_assert token streams (readable and compact/column-wise) at random points of histories; ==, structure dump and then lock-step execution of "
                "the following ops on original and copy with return values (identifiers issued) compared.", "DESIGN.md §6 C06"),
+    "C09": seq("Exploration: the parallel members of the generated query family (par_query with five consumers, ParSystem, System) run on pools of 1..16 threads with seeded jitter inside histories that keep changing the world; "
+               "collected items (address, id, values) are compared with model-side evaluation exactly as for sequential queries, mutable addresses must be pairwise distinct; Miri (data-race detector) runs the same code on small pools.", "DESIGN.md §6 C09",
+               "reference-model monitor over parallel iterations on several pool sizes (native + Miri race detector)"),
     "C10": seq("Exploration: clone/clone_from between independently grown worlds in both directions, equality, per-table content, disjointness of every allocation address in the two dumps, then divergent histories on both under all oracles.", "DESIGN.md §6 C10"),
     "C13": seq("Exploration with an invariant hook: the read-only verif_dump of the world is audited after every op of every history (slot<->row bijection, free list, len, one table per component set, lookup tables).", "DESIGN.md §6 C13",
                "structural audit of a hooked state dump after every op"),
@@ -38,7 +41,7 @@ NOT_APPLICABLE = {}
 
 ENGINES = [
     dict(name="bvh-ctor", path="/verif/ctor/src/main.rs", serves_properties=["C18"], kind_free_text="exhaustive constructor / batch precondition enumeration under catch_unwind"),
-    dict(name="bvh-seq", path="/verif/bvh/src/seq.rs", serves_properties=["C01", "C02", "C03", "C04", "C05", "C06", "C10", "C13", "C15", "C16"],
+    dict(name="bvh-seq", path="/verif/bvh/src/seq.rs", serves_properties=["C01", "C02", "C03", "C04", "C05", "C06", "C09", "C10", "C13", "C15", "C16"],
          kind_free_text="sequential-history runtime monitor: generated op histories on real World vs reference model, drop ledger, allocator audit, structural audit; same binaries under Miri and ASan"),
 ]
 
